@@ -234,7 +234,7 @@ pub(crate) fn run(seed: u64, n: u64, out: &mut Out) {
     for world in 0..n {
         let len = rng.range(26, 36);
         let fork_at = rng.range(len - 12, len - 6);
-        let plan = Plan { seed: seed * 7_000 + world, len, fork_at, ops: vec![] };
+        let plan = Plan { seed: seed * 7_000 + world, len, fork_at, ops: vec![], last_n: 20 };
         reader_case(world, &plan, out);
         // ---- each operation alone: number of writes, lock probe at every write, outcome ----
         let mut n_writes: Vec<u64> = Vec::new();
